@@ -5,6 +5,8 @@ import json, os, re
 VERIF = os.path.dirname(os.path.dirname(os.path.abspath(__file__)))
 # seeded changes that the check of their property missed at first; what was added (details in DESIGN 12.6)
 LATE = {
+    "C05-g": "anti-starvation budgets that are not powers of two (read_time/write_time 33/17, 17/9, 9/33, RT list)",
+    "C13-h": "stream checks: stock confirmation repeats the first run of every distinct clause (was: first bad run only)",
     "C09-a": "native side with early wdata.ready (IdealMem eager) + families eager/eagersb",
     "C05-a": "tCCD>=2 configuration + continuous one-direction streams",
     "C05-b": "refresh-starving alternating-row stream, victims on other banks",
